@@ -269,11 +269,26 @@ func (g *genState) campaign(m int64, noise float64) {
 			}
 		}
 	}
-	for _, st := range seq {
+	// storage fault window somewhere inside the campaign (often around the quorum-making delivery)
+	down, up := -1, -1
+	if g.r.P(0.12) && len(seq) > 2 {
+		down = g.r.Intn(len(seq))
+		up = down + 1 + g.r.Intn(len(seq)-down)
+	}
+	for i, st := range seq {
+		if i == down {
+			g.add("dbdown", 0, 0, 0, 0, "")
+		}
+		if i == up {
+			g.add("dbup", 0, 0, 0, 0, "")
+		}
 		g.p.Steps = append(g.p.Steps, st)
 		if g.r.P(noise) {
 			g.noise(m)
 		}
+	}
+	if down >= 0 {
+		g.add("dbup", 0, 0, 0, 0, "")
 	}
 	// late duplicates / re-observation
 	if g.r.P(0.3) {
